@@ -51,7 +51,19 @@ def evaluate(case):
     for op in sorted(set(ops)):
         ev.labels.append("op=" + op)
     before = fp.snapshot(data)
-    o = fp.outcome(lambda: schema.validate(data, lazy=lazy, inplace=inplace))
+    depth = case.get("depth")
+    if depth:
+        # whatever part of the validation a depth switches off, the parsing steps still run: on a copy
+        from pandera.config import ValidationDepth, config_context
+
+        ev.labels.append("depth=" + depth)
+
+        def call():
+            with config_context(validation_depth=ValidationDepth[depth]):
+                return schema.validate(data, lazy=lazy, inplace=inplace)
+        o = fp.outcome(call)
+    else:
+        o = fp.outcome(lambda: schema.validate(data, lazy=lazy, inplace=inplace))
     ev.labels.append("outcome=" + o["kind"])
     ev.nontrivial = bool(ops) or o["kind"] != "ok"
     if o["kind"] == "ok":
@@ -131,6 +143,8 @@ def strategy(draw):
         elif r < 4 and spec.get("index"):
             entry = "index"
     case["entry"] = entry
+    if draw(st.integers(0, 3)) == 0:
+        case["depth"] = draw(st.sampled_from(["SCHEMA_ONLY", "SCHEMA_ONLY", "DATA_ONLY", "SCHEMA_AND_DATA"]))
     if draw(st.integers(0, 3)) == 0 and entry == "index" and "multi" not in spec["index"]:
         spec["index"]["coerce"] = True
     return case
